@@ -196,7 +196,7 @@ def cases(c):
                     for crit in [None] + CRITERIA:
                         out.append({'N': N, 'order': order, 'cplx': cplx, 'kind': 'noise', 'crit': crit,
                                     'cont': 'array', 'directed': crit is None})
-    for i in range(1000 if c.tier == 'quick' else 9000):
+    for i in range(1000 if c.tier == 'quick' else 54000):
         N = int(rng.integers(4, 201 if i % 3 == 0 else 48))
         kind = gen.pick(rng, KINDS)
         d = {'N': N, 'order': int(rng.integers(1, min(N - 2, 30) + 1)), 'cplx': int(rng.integers(0, 2)),
